@@ -23,3 +23,39 @@ def sim(p, ctx):
 
 def obligations(tier, seed):
     return profiles.obligations_for("C07", tier)
+
+
+def resume(p, ctx):
+    """Cost accounting over a paused and resumed run (simulate(max_time=k), then resume with the initialisation flags off)."""
+    from model.family import build, sim_kwargs
+    from model.observe import concrete_sig
+    from props.histcore import Sim
+
+    with Sim(ctx):
+        M = build(p["spec"], p, ctx.symbolic)
+        kw = sim_kwargs(M)
+        ok1, r = ctx.call(M.project.simulate, **dict(kw, max_time=p["k"]))
+        ok2, r = ctx.call(M.project.simulate, **dict(kw, initialize_state_info=False, initialize_log_info=False))
+        if ok1 and ok2:
+            oracles.c07(M, ctx)
+            if 0 < p["k"] < M.project.time:
+                ctx.cover("resumed-inside-run")
+        else:
+            ctx.aborted = "raised"
+    ctx.sig = (concrete_sig(M), ctx.c(p["k"]))
+
+
+_sim_obligations = obligations
+REQUIRED_COVERS = {"any": profiles.REQUIRED["C07"] + ["resumed-inside-run"]}
+
+
+def obligations(tier, seed):
+    obs = _sim_obligations(tier, seed)
+    thorough = tier == "thorough"
+    for ob in profiles.p_cost(thorough, timeout=900 if thorough else 150):
+        narrow = {"c0": (1, 2), "c1": (0, 1), "a0": (-1, 1), "pa1": (9, 9), "cf": (1, 2), "fa0": (-1, -1), "w0": (1, 3), "w1": (1, 2)}
+        o2 = dict(ob, harness="resume", name="resume/" + ob["name"], engine="zsym")
+        o2["params"] = [[n, max(lo, narrow[n][0]) if n in narrow and narrow[n][0] <= hi else lo, min(hi, narrow[n][1]) if n in narrow and narrow[n][0] <= hi else hi] for n, lo, hi in ob["params"]]
+        o2["params"] = [[n, lo, hi] if n != "pa1" else [n, 3, 3] for n, lo, hi in o2["params"]] + [["k", 0, 6]]
+        obs.append(o2)
+    return profiles.split_param(obs, "k")
